@@ -7,6 +7,7 @@
 package c11m
 
 import (
+	"flag"
 	"encoding/json"
 	"fmt"
 	"strings"
@@ -63,10 +64,11 @@ func (d Bin) Process() (string, error) {
 }
 
 type Arr struct {
-	ID     int
-	Values []nodes.NodeOutput[string]
-	Extra  nodes.NodeOutput[string]
-	Other  nodes.NodeOutput[string]
+	ID      int
+	Values  []nodes.NodeOutput[string]
+	Weights []nodes.NodeOutput[string] // a second array-valued input, after Values in the dependency order
+	Extra   nodes.NodeOutput[string]
+	Other   nodes.NodeOutput[string]
 }
 
 func (d Arr) Process() (string, error) {
@@ -75,7 +77,11 @@ func (d Arr) Process() (string, error) {
 	for _, v := range d.Values {
 		parts = append(parts, nodes.TryGetOutputValue(v, "-"))
 	}
-	return fmt.Sprintf("a%d([%s],%s,%s)", d.ID, strings.Join(parts, ","), nodes.TryGetOutputValue(d.Extra, "-"), nodes.TryGetOutputValue(d.Other, "-")), nil
+	var ws []string
+	for _, v := range d.Weights {
+		ws = append(ws, nodes.TryGetOutputValue(v, "-"))
+	}
+	return fmt.Sprintf("a%d([%s],[%s],%s,%s)", d.ID, strings.Join(parts, ","), strings.Join(ws, ","), nodes.TryGetOutputValue(d.Extra, "-"), nodes.TryGetOutputValue(d.Other, "-")), nil
 }
 
 // Sum consumes a slice-typed parameter (its JSON decoding is not atomic: a message can fail after
@@ -143,6 +149,7 @@ type world struct {
 	g    *nodes.Struct[string, Len]
 	h    *nodes.Struct[string, Un]
 	// reference model
+	pval    string // the value last applied to p (or what the command line / the default gave it)
 	pver    [5]int
 	wiring  [N][]src // ordered inputs of struct nodes (array entries in order)
 	wver    [N]int   // bumped on every re-wiring of the node
@@ -205,6 +212,18 @@ var structNodes = []int{A, B, C, D, E, F, G, H}
 func build(seed string) *world {
 	w := &world{}
 	w.p = &parameter.Value[string]{Name: "p", DefaultValue: "p0"}
+	w.pval = "p0"
+	if seed == "flag" {
+		// the parameter is bound to a command line flag that was given a non-default value; nothing
+		// has been applied to it yet
+		w.p.CLI = &parameter.CliConfig[string]{FlagName: "p", Usage: "p"}
+		fs := flag.NewFlagSet("c11", flag.ContinueOnError)
+		w.p.InitializeForCLI(fs)
+		if err := fs.Parse([]string{"-p", "pflag"}); err != nil {
+			panic(err)
+		}
+		w.pval = "pflag"
+	}
 	w.q = nodes.Value("q0")
 	w.q2 = nodes.Value("q0") // deep-equal to q until one of them is set
 	w.r = &parameter.Value[[]int]{Name: "r", DefaultValue: []int{1, 2}}
@@ -221,12 +240,12 @@ func build(seed string) *world {
 	w.b = &nodes.Struct[string, Bin]{Data: Bin{ID: B, X: w.a.Out(), Y: w.q.Out()}}
 	w.c = &nodes.Struct[string, Un]{Data: Un{ID: C, In: w.a.Out()}}
 	vals := []nodes.NodeOutput[string]{w.b.Out(), w.c.Out()}
-	w.wiring[D] = []src{{"V", B}, {"V", C}, {"Extra", Q}, {"Other", P}}
+	w.wiring[D] = []src{{"V", B}, {"V", C}, {"W", Q2}, {"Extra", Q}, {"Other", P}}
 	if seed == "empty-array" {
 		vals = nil
-		w.wiring[D] = []src{{"Extra", Q}, {"Other", P}}
+		w.wiring[D] = []src{{"W", Q2}, {"Extra", Q}, {"Other", P}}
 	}
-	w.d = &nodes.Struct[string, Arr]{Data: Arr{ID: D, Values: vals, Extra: w.q.Out(), Other: w.p.Out()}}
+	w.d = &nodes.Struct[string, Arr]{Data: Arr{ID: D, Values: vals, Weights: []nodes.NodeOutput[string]{w.q2.Out()}, Extra: w.q.Out(), Other: w.p.Out()}}
 	w.wiring[A] = []src{{"In", P}}
 	w.wiring[B] = []src{{"X", A}, {"Y", Q}}
 	w.wiring[C] = []src{{"In", A}}
@@ -245,7 +264,7 @@ func (w *world) eval(n int) string {
 	}
 	switch n {
 	case P:
-		return w.p.Value() // the parameter's *current* value as the parameter itself reports it
+		return w.pval // the value last applied (initially: the command line's, else the default)
 	case Q:
 		return w.q.Value()
 	case Q2:
@@ -277,7 +296,13 @@ func (w *world) eval(n int) string {
 				parts = append(parts, w.eval(s.from))
 			}
 		}
-		return fmt.Sprintf("a%d([%s],%s,%s)", n, strings.Join(parts, ","), get("Extra"), get("Other"))
+		var ws []string
+		for _, s := range w.wiring[D] {
+			if s.port == "W" {
+				ws = append(ws, w.eval(s.from))
+			}
+		}
+		return fmt.Sprintf("a%d([%s],[%s],%s,%s)", n, strings.Join(parts, ","), strings.Join(ws, ","), get("Extra"), get("Other"))
 	}
 	panic("no such node")
 }
@@ -324,6 +349,8 @@ func (o Op) String() string {
 		return fmt.Sprintf("connect(D.Values<-%s)", nodeNames[o.B])
 	case "arrdel":
 		return "disconnect(D.Values.0)"
+	case "arradd2":
+		return fmt.Sprintf("connect(D.Weights<-%s)", nodeNames[o.B])
 	}
 	return o.Kind
 }
@@ -352,6 +379,8 @@ func alphabet() []Op {
 		Op{Kind: "wire", A: B, S: "Y", B: Q2}, Op{Kind: "wire", A: D, S: "Extra", B: Q2}, Op{Kind: "set", A: Q2, S: "1"},
 		// a file parameter (own version counter) and a value that makes the processors below p fail
 		Op{Kind: "set", A: FP, S: "1"}, Op{Kind: "set", A: FP, S: "22"}, Op{Kind: "set", A: P, S: "boom"},
+		// an update that equals the parameter's default, and the element of the second array input re-wired
+		Op{Kind: "set", A: P, S: "0"}, Op{Kind: "arradd2", A: D, B: Q},
 	)
 	return o
 }
@@ -397,6 +426,7 @@ func apply(w *world, o Op, step int) (enabled bool, probs []problem) {
 		switch o.A {
 		case P:
 			w.p.ApplyMessage([]byte(fmt.Sprintf("%q", "p"+o.S)))
+			w.pval = "p" + o.S
 		case Q:
 			w.q.Set("q" + o.S)
 		case Q2:
@@ -468,6 +498,23 @@ func apply(w *world, o Op, step int) (enabled bool, probs []problem) {
 		}
 		w.wiring[D] = nw
 		w.wver[D]++
+	case "arradd2":
+		k, last := 0, -1
+		for i, s := range w.wiring[D] {
+			if s.port == "W" {
+				k++
+				last = i
+			}
+		}
+		if k >= 2 {
+			return false, nil
+		}
+		w.node(D).SetInput(fmt.Sprintf("Weights.%d", k), nodes.Output{NodeOutput: w.out(o.B)})
+		nw := append([]src{}, w.wiring[D][:last+1]...)
+		nw = append(nw, src{"W", o.B})
+		nw = append(nw, w.wiring[D][last+1:]...)
+		w.wiring[D] = nw
+		w.wver[D]++
 	case "arrdel":
 		if len(w.wiring[D]) == 0 || w.wiring[D][0].port != "V" {
 			return false, nil
@@ -511,7 +558,7 @@ func (w *world) expected(n int, exp *[N]int) {
 	}
 }
 
-var seeds = []string{"fresh", "warm", "empty-array"}
+var seeds = []string{"fresh", "warm", "empty-array", "flag"}
 
 func start(seed string) *world {
 	w := build(seed)
